@@ -56,6 +56,7 @@ func (net Network) Nodes() graph.Nodes {
 		nodes[i] = n
 		i++
 	}
+	simOrderNodes(nodes)
 	return iterator.NewOrderedNodes(nodes)
 }
 
@@ -72,6 +73,7 @@ func (net Network) From(n int64) graph.Nodes {
 		neighbors[i] = net.nodeMap[id]
 		i++
 	}
+	simOrderNodes(neighbors)
 	return iterator.NewOrderedNodes(neighbors)
 }
 
